@@ -297,28 +297,7 @@ func runC02(w *World, r *Report) {
 		}
 	}
 	// ---------------------------------------------------------------- wirelen
-	{
-		var ks []*Kind
-		seen := map[string]bool{}
-		for _, set := range [][]*Kind{actionKinds, instrKinds} {
-			for _, k := range set {
-				if !seen[k.Name] {
-					seen[k.Name] = true
-					ks = append(ks, k)
-				}
-			}
-		}
-		for _, n := range []string{"openflow13.Match", "openflow13.Bucket", "openflow13.BundlePropertyExperimenter", "openflow13.PacketOut", "common.HelloElemVersionBitmap"} {
-			if k := w.Kinds[n]; k != nil && !seen[n] {
-				seen[n] = true
-				ks = append(ks, k)
-			} else if k == nil {
-				r.Fail(VViolation, "wirelen", n, "", "-", "kind with a declared length no longer exists")
-			}
-		}
-		sort.Slice(ks, func(i, j int) bool { return ks[i].Name < ks[j].Name })
-		wirelenRule(w, r, ks)
-	}
+	runWirelen(w, r, actionKinds, instrKinds)
 	builtRule(w, r, "size", func(k *Kind) bool { return nested[k.Name] != nil })
 	alignSet := map[string]*Kind{}
 	for _, set := range [][]*Kind{actionKinds, instrKinds} {
@@ -1280,4 +1259,63 @@ func (w *World) registryWidthFor(fi *FuncInfo) (int64, bool) {
 		return res, found && !bad
 	}
 	return find(fi, 0)
+}
+
+// runWirelen applies the wirelen rule to every element kind with a declared length.
+func runWirelen(w *World, r *Report, actionKinds, instrKinds []*Kind) {
+	{
+		var ks []*Kind
+		seen := map[string]bool{}
+		for _, set := range [][]*Kind{actionKinds, instrKinds} {
+			for _, k := range set {
+				if !seen[k.Name] {
+					seen[k.Name] = true
+					ks = append(ks, k)
+				}
+			}
+		}
+		for _, n := range []string{"openflow13.Match", "openflow13.Bucket", "openflow13.BundlePropertyExperimenter", "openflow13.PacketOut", "common.HelloElemVersionBitmap"} {
+			if k := w.Kinds[n]; k != nil && !seen[n] {
+				seen[n] = true
+				ks = append(ks, k)
+			} else if k == nil {
+				r.Fail(VViolation, "wirelen", n, "", "-", "kind with a declared length no longer exists")
+			}
+		}
+		sort.Slice(ks, func(i, j int) bool { return ks[i].Name < ks[j].Name })
+		wirelenRule(w, r, ks)
+	}
+}
+
+// elementKinds lists the action and instruction kinds (implementations of the two interfaces, without the
+// embedded header-only kinds).
+func elementKinds(w *World) (actions, instrs []*Kind, ok bool) {
+	of := w.ByName["openflow13"]
+	if of == nil {
+		return nil, nil, false
+	}
+	iface := func(name string) *types.Interface {
+		tn, _ := of.Types.Scope().Lookup(name).(*types.TypeName)
+		if tn == nil {
+			return nil
+		}
+		i, _ := tn.Type().Underlying().(*types.Interface)
+		return i
+	}
+	ai, ii := iface("Action"), iface("Instruction")
+	if ai == nil || ii == nil {
+		return nil, nil, false
+	}
+	skip := map[string]bool{"openflow13.NXActionHeader": true, "openflow13.InstrHeader": true}
+	for _, k := range w.Implementations(ai) {
+		if !skip[k.Name] {
+			actions = append(actions, k)
+		}
+	}
+	for _, k := range w.Implementations(ii) {
+		if !skip[k.Name] {
+			instrs = append(instrs, k)
+		}
+	}
+	return actions, instrs, true
 }
